@@ -1,9 +1,31 @@
 import PyamgV.Driver.Util
-/-! Driver ops of the extension models (ExtGraph). Op names are prefixed `ext_`. -/
+import PyamgV.Model.ExtGraph
+/-! Driver ops of the extension models (ExtGraph). Op names are prefixed `ext_`.
+The theorems of `Proofs/ExtGraph*.lean` are stated about exactly these definitions
+(`G.coloringJP`, `G.coloringLDF`, `G.misK`), so no proof-side twins are needed. -/
 namespace PyamgV.Drv.ExtGraph
 open PyamgV PyamgV.Drv
 
+def mkG (n ap aj : String) : G.Graph := ⟨nat n, parseNats ap, parseNats aj⟩
+
+def showCol : Option (Array Int × Int) → String
+  | some (x, m) => showInts x ++ ";" ++ toString m
+  | none => "fuel-exhausted"
+
 def handle : List String → Option String
+  | ["ext_color_jp", n, ap, aj, z] => some <| showCol (G.coloringJP (mkG n ap aj) (parseInts z))
+  | ["ext_color_ldf", n, ap, aj, y] => some <| showCol (G.coloringLDF (mkG n ap aj) (parseInts y))
+  | ["ext_mis_k", n, ap, aj, y, k] =>
+    let g := mkG n ap aj
+    some <| match G.misK g (nat k) (fun (z : Int) => z) (parseInts y) none (g.n + 1) with
+      | some x => showInts x
+      | none => "fuel-exhausted"
+  | ["ext_mis_k_iters", n, ap, aj, y, k, m] =>
+    -- bounded number of outer iterations (`max_iters = m`)
+    let g := mkG n ap aj
+    some <| match G.misK g (nat k) (fun (z : Int) => z) (parseInts y) (some (nat m)) (nat m + 1) with
+      | some x => showInts x
+      | none => "fuel-exhausted"
   | _ => none
 
 end PyamgV.Drv.ExtGraph
